@@ -249,6 +249,28 @@ def main(argv=None):
       known_hits.append((k[0], o))
       continue
     violations.append(o)
+  # undecided obligations that carry a candidate counter-model: confirmed only by reproducing it on the real code
+  still = []
+  tried = set()
+  for o in unknown:
+    fn = getattr(reg, 'replayers', {}).get(o.get('unit'))
+    if fn is None or not (o.get('model') or {}).get('$candidate') or o['name'] in tried or o['name'] in seen:
+      still.append(o)
+      continue
+    tried.add(o['name'])
+    try:
+      out = fn(replay.decode_model(o['model']), o)
+    except Exception:
+      out = None
+    if out and out.get('reproduced'):
+      o = dict(o, status='sat')
+      o['info'] = dict(o['info'], msg=(o['info'].get('msg', '') + ' -- solver undecided; candidate counter-model reproduced on the real code').strip())
+      violations.append(o)
+      sat = sat + [o]
+      seen.add(o['name'])
+    else:
+      still.append(o)
+  unknown = [o for o in still if o['name'] not in seen or o['status'] != 'unknown' or True]
   for e, o in known_hits:
     print('KNOWN-FINDING: property=%s %s [%s]' % (prop, e['what'], o['name']))
   exit_code = 0
